@@ -443,6 +443,9 @@ def run(rep: core.Report):
     from rules import shared_alias
 
     shared_alias.run(rep, "R15f", ["phonopy/structure/symmetry.py", "phonopy/harmonic/force_constants.py", "phonopy/harmonic/dynamical_matrix.py", "phonopy/structure/atoms.py", "phonopy/structure/cells.py"])
+    from rules import shared_freshwrite
+
+    shared_freshwrite.run(rep, "R15g", ["phonopy/harmonic/dynamical_matrix.py", "phonopy/phonon/group_velocity.py", "phonopy/harmonic/derivative_dynmat.py"], 2)
 
 
 def selftest():
